@@ -1,47 +1,45 @@
 /-
   Lemmas/ReaderAll: the reader model passes the spec's complete judgement (`Cur.judge`: cursor
-  contract + error provenance + liveness on live sources) on every step of every history.
+  contract + error provenance + liveness wherever the source's credit demands it) on every step of every history.
 -/
 import Verif.Lemmas.ReaderRefine
 import Verif.Lemmas.ReaderProv
 import Verif.Lemmas.ReaderSteady
+import Verif.Lemmas.ReaderCredit
 namespace Verif
 
 /-! ## everything together: the model passes the complete judgement (`Cur.judge`) -/
 
-/-- the invariant of a whole history over a source with script `s0` -/
-structure Sim (s0 : List Resp) (live : Bool) (c : Cur) (r : Rd) : Prop where
+/-- the invariant of a whole history over a source with script `s0`, at cursor `c` with credit `cr` -/
+structure Sim (s0 : List Resp) (cr : Credit) (c : Cur) (r : Rd) : Prop where
   abs : Abs c r
   prov : Prov s0 r
-  live : live = true → r.Live
+  credit : CreditInv cr r
 
 theorem Cur.step_S {ε : Type} (c c' : Cur) (op : ROp) (res : RRes ε) (h : c.step op res = .ok c') :
     c'.S = c.S := by
   cases op <;> cases res <;> simp only [Cur.step] at h <;>
     (repeat' split at h) <;> simp_all <;> (subst h; rfl)
 
-theorem step_judge (s0 : List Resp) (live : Bool) (c : Cur) (r : Rd) (op : ROp)
-    (h : Sim s0 live c r) (hs : r.Small op.size) :
-    ∃ c', c.judge Facts.maxConsecutiveEmptyReads s0 live op (r.step op).1 = .ok c' ∧
-      Sim s0 live c' (r.step op).2 ∧ c'.S = c.S := by
+theorem step_judge (s0 : List Resp) (cr : Credit) (c : Cur) (r : Rd) (op : ROp)
+    (h : Sim s0 cr c r) (hs : r.Small op.size) :
+    ∃ c', c.judge Facts.maxConsecutiveEmptyReads s0 cr op (r.step op).1 = .ok (c', cr.after c op) ∧
+      Sim s0 (cr.after c op) c' (r.step op).2 ∧ c'.S = c.S := by
   obtain ⟨c', hc', habs'⟩ := step_refines c r op h.abs hs
   obtain ⟨hprov', hallowed⟩ := step_prov s0 r op h.abs.inv hs h.prov
-  refine ⟨c', ?_, ⟨habs', hprov', ?_⟩, Cur.step_S _ _ _ _ hc'⟩
-  · unfold Cur.judge
-    rw [hc']
-    simp only []
-    have hlv : (live && !liveOk c op (r.step op).1) = false := by
-      cases hlive : live with
-      | false => simp
-      | true =>
-        have := (step_live c r op h.abs hs (h.live hlive)).2
-        simp [this]
-    split
-    · rename_i e he
-      simp [hallowed e he, hlv]
-    · simp [hlv]
-  · intro hlive
-    exact (step_live c r op h.abs hs (h.live hlive)).1
+  obtain ⟨hcred', hlive⟩ := step_credit cr c r op h.abs hs h.credit
+  refine ⟨c', ?_, ⟨habs', hprov', hcred'⟩, Cur.step_S _ _ _ _ hc'⟩
+  unfold Cur.judge
+  rw [hc']
+  simp only []
+  have hlv : (cr.must c op && !liveOk c op (r.step op).1) = false := by
+    cases hm : cr.must c op with
+    | false => simp
+    | true => simp [hlive hm]
+  split
+  · rename_i e he
+    simp [hallowed e he, hlv]
+  · simp [hlv]
 
 /-- a request bound that does not mention the model state: stream and requests below 2^62 -/
 theorem small_of_bounds (c : Cur) (r : Rd) (n : Nat) (h : Abs c r)
@@ -51,18 +49,18 @@ theorem small_of_bounds (c : Cur) (r : Rd) (n : Nat) (h : Abs c r)
   have : r.buf.length ≤ c.S.length := by rw [hsp]; simp; omega
   unfold Rd.Small; omega
 
-theorem trace_judge (s0 : List Resp) (live : Bool) (c : Cur) (r : Rd) (ops : List ROp)
-    (h : Sim s0 live c r) (hS : c.S.length ≤ 4611686018427387904)
+theorem trace_judge (s0 : List Resp) (cr : Credit) (c : Cur) (r : Rd) (ops : List ROp)
+    (h : Sim s0 cr c r) (hS : c.S.length ≤ 4611686018427387904)
     (hops : ∀ op ∈ ops, op.size ≤ 4611686018427387904) :
-    ∃ c', c.judgeRun Facts.maxConsecutiveEmptyReads s0 live (r.trace ops).1 = .ok c' ∧
-      Sim s0 live c' (r.trace ops).2 := by
-  induction ops generalizing c r with
-  | nil => exact ⟨c, rfl, h⟩
+    ∃ c' cr', c.judgeRun Facts.maxConsecutiveEmptyReads s0 cr (r.trace ops).1 = .ok (c', cr') ∧
+      Sim s0 cr' c' (r.trace ops).2 := by
+  induction ops generalizing c cr r with
+  | nil => exact ⟨c, cr, rfl, h⟩
   | cons op ops ih =>
     have hs := small_of_bounds c r op.size h.abs hS (hops op (by simp))
-    obtain ⟨c1, hc1, h1, hS1⟩ := step_judge s0 live c r op h hs
-    obtain ⟨c2, hc2, h2⟩ := ih c1 _ h1 (by rw [hS1]; exact hS) (fun o ho => hops o (by simp [ho]))
-    refine ⟨c2, ?_, h2⟩
+    obtain ⟨c1, hc1, h1, hS1⟩ := step_judge s0 cr c r op h hs
+    obtain ⟨c2, cr2, hc2, h2⟩ := ih _ c1 _ h1 (by rw [hS1]; exact hS) (fun o ho => hops o (by simp [ho]))
+    refine ⟨c2, cr2, ?_, h2⟩
     simp only [Rd.trace, Cur.judgeRun, hc1]
     exact hc2
 
